@@ -9,6 +9,8 @@ CONSTANTS
   AsFound_ChainedLagNoSeries = TRUE
   AsFound_OwnNamesAccepted = FALSE
 INVARIANT TypeOK
+INVARIANT C20_EachVariableOnce
+INVARIANT C20_ReductionKeepsEquations
 INVARIANT C20_Closed
 INVARIANT C20_ResolvesSolverNames
 INVARIANT C20_LoopStateOwn
